@@ -11,7 +11,7 @@ import (
 func init() {
 	register(&Check{
 		ID: "C02", Level: "exploration", QuickSecs: 150, ThoroughSecs: 1500,
-		Rule:        "skeletons over {'a',[ab],.,\"é\",&{},!{},#{}} x {?,*,+,&,!} x seq/choice up to N nodes (quick 4, thorough 5) wrapped in a rule-level action; every placement of <=2 labels on sub-expressions; every block receives the labels of its scope; every true/false script of the code predicates; inputs over {a,b,\\n,é} up to L=3; the complete ordered log of block invocations (id, kind, line:col:offset, text, label values), also on abandoned alternatives, and the parse result are compared with the reference interpreter; with Memoize each observed invocation must be one the reference also makes; plus a family generated with -optimize-grammar in which a labelled leaf rule is inlined next to equally named labels. Non-trivial = at least two block invocations of which one on a later-abandoned path or after a backtrack.",
+		Rule:        "skeletons over {'a',[ab],.,\"é\",&{},!{},#{}} x {?,*,+,&,!} x seq/choice up to N nodes (quick 4, thorough 5) wrapped in a rule-level action; every placement of <=2 labels on sub-expressions; every block receives the labels of its scope; every true/false script of the code predicates, each also with the predicates returning an error next to their boolean; inputs over {a,b,\\n,é} up to L=3; the complete ordered log of block invocations (id, kind, line:col:offset, text, label values), also on abandoned alternatives, and the parse result are compared with the reference interpreter; with Memoize each observed invocation must be one the reference also makes; plus a family generated with -optimize-grammar in which a labelled leaf rule is inlined next to equally named labels. Non-trivial = at least two block invocations of which one on a later-abandoned path or after a backtrack.",
 		Assumptions: []string{"E1 loader", "which labels a block receives is C04's concern; here the values bound to them are checked"},
 		Run:         runC02,
 	})
@@ -81,6 +81,21 @@ func predScripts(g *peg.Grammar, base func(e *peg.Expr) rtapi.Block) []map[int]*
 			}
 		}
 		out = append(out, s)
+	}
+	// the boolean alone decides: the same assignments with every predicate also returning an error
+	if len(preds) > 0 {
+		n := len(out)
+		for i := 0; i < n; i++ {
+			s := map[int]*rtapi.Block{}
+			for k, v := range out[i] {
+				c := *v
+				s[k] = &c
+			}
+			for _, p := range preds {
+				s[p.ID].Err = "e" + itoa(p.ID)
+			}
+			out = append(out, s)
+		}
 	}
 	return out
 }
